@@ -623,7 +623,7 @@ static bool reportClangErrors(std::istream &is, const std::function<void(const E
 std::string CppCheck::getLibraryDumpData() const {
     std::string out;
     for (const std::string &s : mSettings.libraries) {
-        out += "  <library lib=\"" + s + "\"/>\n";
+        out += "  <library lib=\"" + ErrorLogger::toxml(s) + "\"/>\n";
     }
     return out;
 }
